@@ -199,3 +199,15 @@ NOTES["C19"] = dict(
     note="Partial: libc number printing/parsing is trusted; PETSc files are big-endian as the format specifies.",
     technique="Lean 4 proof on the coordinate model of stencil matrices; entry-level correspondence; file round trips against the source matrix",
 )
+
+NOTES["C20"] = dict(
+    text=("Message-level Lean model of repartition_matrix + make_contiguous (rows packed with global columns, arrival order a parameter, "
+          "sort by global id, foreign columns sorted by (owner, id), prefix-sum numbering, halo renumbering through the owner) and of "
+          "diagonally_scale / row_scale / diagonally_unscale on per-rank blocks with the halo scales delivered by the C03 exchange model; "
+          "theorems in Props/C20.lean (as proved at this commit). Every array the real call returns is compared with the model and with the "
+          "global specification: the reported rows form one permutation, the new matrix read through it is the old one, the new package "
+          "is the valid package of the new contiguous partition, A'(Px) = P(Ax) for random x; scaled entries of both blocks, right-hand "
+          "side, scales and unscaled vector entry by entry."),
+    note="Partial: MPI_Pack/Unpack and the transport are trusted; scaling compared at double precision (1e-10 relative), theorems exact.",
+    technique="Lean 4 proof on the message-level repartition model and the block scaling model; array-level correspondence under perturbed schedules",
+)
